@@ -484,3 +484,56 @@ def monitor_c19(rep, n, pid="C19"):
             G.reset_partition()
     st["violations"] = viol
     rep.monitor[f"{pid}_kinds"] = st
+
+
+def monitor_c08_kinds(rep, n, pid="C08"):
+    """the type filters of the store-backed node classes, on the implementation: a RiverReservoir that is pushed to spills
+    only towards Node / River / Waste neighbours, Groundwater.distribute and River.distribute send only to those types -
+    arcs to neighbours of any other class (reservoirs, sewers, groundwater, ...) carry nothing"""
+    r = C.rng("mon_c08_kinds")
+    viol = 0
+    st = {"cases": 0, "pushes_into_full_river_reservoir": 0, "distributes": 0, "arcs_to_other_types_watched": 0}
+    ALLOWED = (0, 1, 2)            # type ids of Node, River, Waste (FAKE)
+    for ci in range(n):
+        c = gen_kind_case(r, 6)
+        c["cls"] = ("RiverReservoir", "RiverReservoir", "Groundwater", "River")[ci % 4]
+        part = K.Part(c["adds"], c["nons"])
+        c["outs"] = gen_star(r, part, r.choice([2, 3, 4]), [0, 1, 2, 3, 4, 5, 3, 4])
+        for a in c["outs"]:
+            if a["ty"] in ALLOWED and r.random() < 0.7:
+                a["cap"] = r.choice([F(0), F(1), F(2)])          # named-type arcs short of capacity: the rest must NOT go elsewhere
+        if c["cls"] == "RiverReservoir":
+            full = c["cap"]
+            if c["init"][0] > 0:
+                c["init"] = (full, [x * full / c["init"][0] for x in c["init"][1]], c["init"][2])
+            c["ops"] = [("push", K.push_amount(r, part, F(10))) for _ in range(r.randint(1, 3))]
+        else:
+            c["ops"] = [("distribute",) for _ in range(r.randint(1, 2))]
+        install_exact()
+        G.set_partition(c["adds"], c["nons"])
+        try:
+            R = KindRun(c)
+            watch = [(arc, a["ty"]) for (arc, nb), a in zip(R.outs, c["outs"]) if a["ty"] not in ALLOWED]
+            st["arcs_to_other_types_watched"] += len(watch)
+            for i, op in enumerate(c["ops"]):
+                before = [frac(arc.vqip_in["volume"]) for arc, _ in watch]
+                R.do(op)
+                st["pushes_into_full_river_reservoir" if op[0] == "push" else "distributes"] += 1
+                for (arc, ty), b in zip(watch, before):
+                    moved = frac(arc.vqip_in["volume"]) - b
+                    if moved != 0:
+                        viol += 1
+                        if viol <= 3:
+                            c2 = dict(c)
+                            c2["ops"] = c["ops"][:i + 1]
+                            rep.violation("counterexample", f"{pid} monitor: {c['cls']} {op[0]}: {moved} travelled on the arc to a neighbour of "
+                                          f"class {FAKE[ty].__name__}, which is not among the named types Node / River / Waste",
+                                          {"family": "kind", "case": K.case_json(c2)}, True)
+            st["cases"] += 1
+            rep.add_eval(("mon_c08_kinds", str(c)), nontrivial=bool(watch))
+        except Exception as ex:
+            rep.notes.append(f"{pid} kind-filter monitor: case raised {type(ex).__name__}: {ex}")
+        finally:
+            G.reset_partition()
+    st["violations"] = viol
+    rep.monitor[f"{pid}_kind_filters"] = st
